@@ -58,6 +58,7 @@ structure Inv (c : Cfg) (n : Nat) (input : List α) (s : State α) : Prop where
   len : s.cs.length = n
   lockP : pCrit s.ppc = true ↔ s.lock = some .prod
   lockC : ∀ (i : Nat) (pc : CPc α), s.cs[i]? = some pc → (cCrit pc = true ↔ s.lock = some (.cons i))
+  lockR : ∀ (i : Nat), s.lock = some (.cons i) → i < s.cs.length
   head_lt : s.head < c.slots
   qlen : s.q.length + pHold s.ppc ≤ c.unusedInit
   tail_eq : s.tail = (s.head + s.q.length) % c.slots
@@ -94,6 +95,7 @@ theorem inv_init (c : Cfg) (hc : c.WF) (n : Nat) (input : List α) : Inv c n inp
   · simp
   · simp [pCrit]
   · intro i pc h; rw [getElem?_replicate_idle h]; simp [cCrit]
+  · intro i h; simp at h
   · have := hc.cap_lt; omega
   · simp [pHold]
   · simp
